@@ -259,6 +259,19 @@ def gen_netlist(rng, mode="full", max_stmts=10, max_inputs=5, depth=4, lookalike
                 e = ["c", rng.randint(0, 1)] if rng.random() < 0.3 else ["id", rng.choice(nets)]
             else:
                 e = rand_expr(rng, nets, rng.randint(0, depth), stats)
+                if rng.random() < 0.02:
+                    # one operator chained over 17..30 operands (left-deep; neighbours differ)
+                    op = rng.choice(["and", "or", "xor"])
+                    e, last = None, None
+                    for _ in range(rng.randint(17, 30)):
+                        cands = [n for n in nets if n != last] or nets
+                        last = rng.choice(cands)
+                        leaf = ["id", last]
+                        if rng.random() < 0.2:
+                            leaf = ["not", "~", leaf]
+                        e = leaf if e is None else [op, SYMS[op][0], e, leaf]
+                    if stats is not None:
+                        stats["wide_chain"] = stats.get("wide_chain", 0) + 1
                 if rng.random() < 0.15:
                     e = ["tern", rand_expr(rng, nets, 2, stats), rand_expr(rng, nets, 2, stats), rand_expr(rng, nets, 2, stats)]
                     if stats is not None:
@@ -292,6 +305,13 @@ def gen_netlist(rng, mode="full", max_stmts=10, max_inputs=5, depth=4, lookalike
         cands = [w for w in nl["wires"] + nl["outputs"] + nl["inputs"] if w not in renames]
         for w in rng.sample(cands, min(len(cands), rng.randint(1, 2))):
             renames[w] = rng.choice(["\\" + w + "[1]", "\\" + w + "-x", "\\3" + w, "\\" + w + "/q"])
+    if not fast and rng.random() < 0.02:
+        # net names of 60..100 characters
+        cands = [w for w in nl["wires"] + nl["outputs"] + nl["inputs"] if w not in renames]
+        for j, w in enumerate(rng.sample(cands, min(len(cands), rng.randint(1, 3)))):
+            renames[w] = w + "_" + "".join(rng.choice("abcdefghxyz0123456789") for _ in range(rng.randint(60, 100))) + str(j)
+        if stats is not None:
+            stats["long_names"] = 1
     if renames:
         nl = rename_nets(nl, renames)
         nl["renamed"] = sorted(renames.values())
@@ -399,8 +419,10 @@ def render(rng, nl, layout="free", comments=0.0, shuffle=True, split_decl=None):
             return " " if mand else ""
         if r < 0.8:
             return " "
-        if r < 0.9:
+        if r < 0.86:
             return "\n  "
+        if r < 0.9:
+            return "\n"  # a bare line break as the only separator
         if r < 0.95:
             return "\t"
         return "  \n"
@@ -530,6 +552,11 @@ def render(rng, nl, layout="free", comments=0.0, shuffle=True, split_decl=None):
         ports.remove(nl["inputs"][-1])
     elif neg == "missing_port_output":
         ports.remove(nl["outputs"][-1])
+    elif neg in ("port_renamed_input", "port_renamed_output"):
+        # as many ports as declarations, but one name differs (header and body disagree in both directions)
+        victim = nl["inputs"][-1] if neg.endswith("input") else nl["outputs"][-1]
+        wires = [w for w in nl["wires"] if w not in ports]
+        ports[ports.index(victim)] = wires[0] if wires and rng.random() < 0.5 else "zz_other"
     elif neg == "wire_only_port":
         # a port that is declared only as a wire (no direction)
         cand = [w for w in nl["wires"] if w not in ports]
